@@ -183,3 +183,27 @@ func DeflateMsg(p []byte, variant string) ([]byte, error) {
 	}
 	return nil, errors.New("wire: unknown deflate variant " + variant)
 }
+
+// SyncOffset returns, for the variants that flush in the middle of the message
+// ("fixed2", "std2"), the offset inside the permessage-deflate payload at which
+// the first sync flush's 00 00 ff ff begins (the bytes before it are a complete
+// deflate prefix); -1 for other variants.
+func SyncOffset(p []byte, variant string) int {
+	switch variant {
+	case DefFixed2:
+		var w bitWriter
+		w.fixedLiterals(p[:len(p)/2], false)
+		w.syncTail()
+		return len(w.out) - 4
+	case DefStd2:
+		var buf bytes.Buffer
+		fw, err := flate.NewWriter(&buf, 6)
+		if err != nil {
+			return -1
+		}
+		fw.Write(p[:len(p)/2])
+		fw.Flush()
+		return buf.Len() - 4
+	}
+	return -1
+}
